@@ -87,16 +87,16 @@ macro_rules! val {
     };
 }
 
-#[derive(Clone, Copy, Debug)]
-struct Res {
-    global: bool,
-    decl: u32,
+#[derive(Clone, Copy, Debug, PartialEq)]
+pub struct Res {
+    pub global: bool,
+    pub decl: u32,
 }
 
 #[derive(Clone)]
-struct FuncInfo {
-    name: Option<Res>,
-    params: Vec<u32>,
+pub struct FuncInfo {
+    pub name: Option<Res>,
+    pub params: Vec<u32>,
 }
 
 #[derive(Clone)]
@@ -109,10 +109,13 @@ struct SCtx {
 #[derive(Clone)]
 pub struct Resolver {
     ctxs: Vec<SCtx>,
-    next_decl: u32,
-    idents: HashMap<usize, Res>,
-    lets: HashMap<usize, Res>,
-    funcs: HashMap<usize, FuncInfo>,
+    pub next_decl: u32,
+    /// resolution of every identifier use / assignment target, by node address
+    pub idents: HashMap<usize, Res>,
+    /// declaration made by every `stel`, by statement address
+    pub lets: HashMap<usize, Res>,
+    /// name and parameter declarations of every function literal, by node address
+    pub funcs: HashMap<usize, FuncInfo>,
     /// model switch for a recorded finding: first declaration in a scope wins (KF quirk)
     pub quirk_first_decl_wins: bool,
     /// model switch: stop/volgende inside a function body may bind to a loop of the caller's body
